@@ -345,6 +345,9 @@ static std::vector<Fine> ssrb_fines(bool thorough)
   std::vector<int> Ts;
   if (thorough) { for (int D : { 8, 12, 16 }) for (int R = 1; R <= 4; ++R) DR.push_back({ D, R }); Ts = { 0, 3, 5, 7, 9 }; }
   else { DR = { { 8, 1 }, { 8, 2 }, { 8, 3 }, { 12, 2 } }; Ts = { 0, 3, 5 }; }
+  // 5 rings, span 1, all 9 segments (non-TOF): the smallest geometry in which num_segments_to_combine = 3 gives COMPLETE oblique output
+  // segments (input segments -4..-2 -> -1, 2..4 -> +1); with <= 4 rings every oblique group is incomplete
+  DR.push_back({ 8, 5 });
   for (auto dr : DR)
     for (int T : Ts)
       {
@@ -355,8 +358,9 @@ static std::vector<Fine> ssrb_fines(bool thorough)
         if (T > 5 && D * R > 24) continue;
         if (T > 3 && D * R > 36) continue;
         if (T > 0 && D * R > 48) continue;
-        for (int span = 1; span <= 2 * R - 1; span += 2)
-          for (int md = (span - 1) / 2; md <= R - 1; ++md)
+        if (R == 5 && T > 0) continue;
+        for (int span = 1; span <= (R == 5 ? 1 : 2 * R - 1); span += 2)
+          for (int md = (R == 5 ? R - 1 : (span - 1) / 2); md <= R - 1; ++md)
             for (int vm = 1; vm <= D / 2; ++vm)
               {
                 if ((D / 2) % vm) continue;
